@@ -46,6 +46,11 @@
           be the attached document's
      DC8  text/* attachment sent with a textual CTE (quoted-printable): line ends of the
           bytes (tag "bytesnl" = equal after CRLF -> LF)
+   EXCLUDED from the universe (stated, never generated): raw 8-bit MIME parameter values (RFC 6532
+   file names; the standard library's own parser does not decode them -- message HEADERS in raw
+   UTF-8 are in the universe, ser = "smtputf8"); group syntax in address lists; a known MIME type
+   declared for arbitrary bytes (payload "bin" is always of unknown type); file name and MIME type
+   that contradict the payload.
    No DON'T-CARE exists for: words and their order in the subject, addresses, display names,
    list lengths and order, message ids, body selection, attachment order / type / bytes.
 
